@@ -25,7 +25,8 @@ import (
 )
 
 // c09MockApp: behaviour encoded in the packet data "<beh>:<k>:<bank>:<tag>"
-//   S success, E error at once, WE write k keys (+ optional bank send) then error, A async (after writing)
+//
+//	S success, E error at once, WE write k keys (+ optional bank send) then error, A async (after writing)
 func c09MockApp(ch *kit.Chain) func(ctx sdk.Context, channelVersion string, packet channeltypes.Packet, relayer sdk.AccAddress) exported.Acknowledgement {
 	return func(ctx sdk.Context, channelVersion string, packet channeltypes.Packet, relayer sdk.AccAddress) exported.Acknowledgement {
 		parts := strings.SplitN(string(packet.Data), ":", 4)
